@@ -89,7 +89,7 @@ def probes(log, stages=True):
             setattr(cls, name, orig)
 
 
-def compute(cfg, seed=0, scheduler="synchronous", num_workers=None, pool=None, output_file=None, write_stages=False, with_probes=True, freeze=True, quiet=True):
+def compute(cfg, seed=0, scheduler="synchronous", num_workers=None, pool=None, output_file=None, write_stages=False, with_probes=True, freeze=True, quiet=True, to_plot=None):
     """Run the real compute(); returns (table or None, Log). Exceptions are stored in log.exception."""
     import dask
     import nuspacesim
@@ -113,7 +113,14 @@ def compute(cfg, seed=0, scheduler="synchronous", num_workers=None, pool=None, o
         if seed is not None:
             np.random.seed(int(seed))
         try:
-            sim = cm.compute(cfg, verbose=False, output_file=output_file, write_stages=write_stages)
+            kw_ = {}
+            if to_plot is not None:
+                kw_["to_plot"] = list(to_plot)
+            sim = cm.compute(cfg, verbose=False, output_file=output_file, write_stages=write_stages, **kw_)
+            if to_plot is not None:
+                import matplotlib.pyplot as plt
+
+                plt.close("all")
         except BaseException as e:  # noqa: BLE001 - recorded for the caller to judge
             if isinstance(e, (KeyboardInterrupt, SystemExit)):
                 raise
